@@ -94,6 +94,8 @@ class GenCfg:
     loner: bool = False              # an extra host thread with ONE childless operator that outlasts everything else
     p_overhang: float = 0.0          # an operator ends 1-2 us BEFORE its last child (timer glitch: not properly nested any more)
     p_nested_annotation: float = 0.0 # a child slot of an operator becomes a user annotation that wraps further operators
+    pad_entries: int = 0             # that many metadata entries right after the first file entry: event ids (file positions) get large
+    per_rank: Optional[Dict[int, Dict[str, Any]]] = None   # knob overrides for individual ranks (differently instrumented ranks of one job)
 
 
 @dataclass
@@ -444,7 +446,9 @@ def gen_rank(rng: random.Random, cfg: GenCfg, rank: int) -> RankTrace:
         rest += _extras(rng, sim, events, lo, hi)
     if cfg.shuffle:
         rng.shuffle(rest)
-    out = [first_host] + rest
+    pad = [{"name": "thread_name", "ph": "M", "ts": lo, "pid": sim.pid, "tid": 100000 + k, "args": {"name": f"pt_worker_{k}"}}
+           for k in range(cfg.pad_entries)]
+    out = [first_host] + pad + rest
     # time unit and epoch offset
     base = cfg.base
     for e in out:
@@ -474,7 +478,9 @@ def _dur_us(ticks: int, frac: int):
 def gen_trace_set(rng: random.Random, cfg: GenCfg) -> List[RankTrace]:
     if cfg.n_steps == 0 and cfg.pre_ops == 0 and cfg.post_ops == 0:
         cfg.pre_ops = 1          # a trace has at least one operator
-    return [gen_rank(rng, cfg, r) for r in range(cfg.n_ranks)]
+    import dataclasses
+    return [gen_rank(rng, dataclasses.replace(cfg, **cfg.per_rank[r]) if cfg.per_rank and r in cfg.per_rank else cfg, r)
+            for r in range(cfg.n_ranks)]
 
 
 def write_trace_set(ranks: List[RankTrace], d: str) -> List[str]:
